@@ -403,9 +403,62 @@ func (cs *c13SymCase) addSymbolsOp(r *Rng) {
 		cs.Lookups = append(cs.Lookups, c13Lookup{H: h, Addr: cs.Biases[h] + last.Start + hx(r.Intn(int(last.Size)+0x100)), Op: "symaddr"})
 	case 3:
 		cs.Lookups = append(cs.Lookups, c13Lookup{H: h, Addr: cs.Biases[h] + f.Start, Op: "symaddr"})
+	case 4: // last byte of a group (next start − 1) or the next start itself
+		next := ^hx(0)
+		for _, g := range cs.Funcs {
+			if g.Start > f.Start && g.Start-1 < next {
+				next = g.Start - 1
+			}
+		}
+		cs.Lookups = append(cs.Lookups, c13Lookup{H: h, Addr: cs.Biases[h] + next + hx(r.Intn(2)), Op: "symaddr"})
 	default:
 		cs.Lookups = append(cs.Lookups, c13Lookup{H: h, Addr: cs.Biases[h] + f.Start + hx(r.Intn(int(f.Size))), Op: "symaddr"})
 	}
+}
+
+// genBoundaryCase aims SourceLine and Symbols lookups at the boundaries of every symbol: start,
+// start+1, the last two bytes of the function, the last byte before the next symbol, the next start;
+// one below the first symbol, the end of the last one, and (Symbols) 0 and 2^64−1.
+func genBoundaryCase(r *Rng, mode string) *c13SymCase {
+	var cs *c13SymCase
+	for cs == nil || len(cs.Funcs) < 3 {
+		cs = genSymCase(r, mode)
+	}
+	cs.Fmt = nil
+	cs.Biases = cs.Biases[:2]
+	var warm []c13Lookup
+	for _, lk := range cs.Lookups {
+		if lk.Op == "" && lk.H < 2 && len(warm) < 2 && (len(warm) == 0 || warm[0].H != lk.H) {
+			warm = append(warm, lk)
+		}
+	}
+	cs.Lookups = warm
+	add := func(link hx, both bool) {
+		h := r.Intn(2)
+		if both {
+			cs.Lookups = append(cs.Lookups, c13Lookup{H: h, Addr: cs.Biases[h] + link})
+		}
+		cs.Lookups = append(cs.Lookups, c13Lookup{H: h, Addr: cs.Biases[h] + link, Op: "symaddr"})
+	}
+	for i, f := range cs.Funcs {
+		pts := []hx{f.Start, f.Start + 1, f.Start + f.Size - 2, f.Start + f.Size - 1, f.Start + f.Size}
+		if i+1 < len(cs.Funcs) {
+			pts = append(pts, cs.Funcs[i+1].Start-1, cs.Funcs[i+1].Start)
+		}
+		seen := map[hx]bool{}
+		for _, p := range pts {
+			if !seen[p] && p >= cs.Funcs[0].Start {
+				seen[p] = true
+				add(p, true)
+			}
+		}
+	}
+	add(cs.Funcs[0].Start-1, true)
+	add(0, false)
+	add(1, false)
+	add(^hx(0), false)
+	add(^hx(0)-1, false)
+	return cs
 }
 
 // c13NameLens: symbol-name lengths around the buffer sizes parsers tend to use.
@@ -899,7 +952,8 @@ func (cs *c13SymCase) checkSymbols(c *Ctx, lk c13Lookup, got []*plugin.Sym, tag 
 	for i := range groups {
 		g := &groups[i]
 		if rx == nil {
-			if g.start <= addr && addr <= g.end {
+			// address 0 means "no address" in the Symbols API
+			if addr != 0 && g.start <= addr && addr <= g.end {
 				want++
 			}
 			continue
@@ -910,6 +964,23 @@ func (cs *c13SymCase) checkSymbols(c *Ctx, lk c13Lookup, got []*plugin.Sym, tag 
 				break
 			}
 		}
+	}
+	if rx == nil && nreal == 0 && want == 1 {
+		var g *group
+		for i := range groups {
+			if groups[i].start <= addr && addr <= groups[i].end {
+				g = &groups[i]
+			}
+		}
+		where := "inside"
+		switch addr {
+		case g.start:
+			where = "first byte"
+		case g.end:
+			where = "last byte"
+		}
+		c.Violation(sig+"missed", fmt.Sprintf("Symbols(addr %#x) returned nothing; the address is the %s of %s [%#x,%#x], the symbol with the greatest start not above it", addr, where, c13Abbrev(g.names[0]), g.start, g.end), one)
+		return
 	}
 	if nreal != want {
 		c.Disagree("C13/model/Symbols-"+cs.Mode, fmt.Sprintf("Symbols(%s %q %#x) returned %d symbols, the nm table has %d matching groups", lk.Op, lk.Rx, addr, nreal, want), "correspondence: findSymbols returns exactly the nm groups that contain the address / match the regexp", one)
@@ -925,6 +996,15 @@ func (e *c13Env) runSymStreams(r *Rng) {
 		for i, n := 0, st.n*c.Scale; i < n; i++ {
 			cs := genSymCase(r, st.mode)
 			c.Res.Count(fmt.Sprint("symhist ", *cs), len(cs.Funcs) >= 2 && len(cs.Biases) >= 2)
+			e.runSymHist(cs)
+		}
+	}
+	// boundary sweeps: every symbol's first/second/last bytes and its neighbours, one case per chain
+	for rep := 0; rep < c.Scale; rep++ {
+		for _, mode := range []string{"nm", "a2l", "llvm"} {
+			cs := genBoundaryCase(r, mode)
+			c.Res.Count(fmt.Sprint("symhist-boundary ", *cs), true)
+			c.Res.Hit("sym:boundary-sweep-cases," + mode)
 			e.runSymHist(cs)
 		}
 	}
